@@ -11,6 +11,10 @@ class Unsupported(Exception):
     """Construct outside the supported subset: the obligation is *ungenerable* (undecided)."""
 
 
+class IterationCap(Exception):
+    """a loop without a loop specification ran far beyond anything its (concrete-size) input could need: suspected non-termination"""
+
+
 class PathEnd(Exception):
     """The current path stops here (after an inductive step or an infeasible assumption)."""
 
